@@ -195,7 +195,11 @@ def build_cases(ck, T, cov):
         if len(b) < 20000:
             cases.append((0, -1, b, 'repo-data'))
             cases.append((1, -1, b, 'repo-data'))
-    for fam in (G.hostile_count_family(T), G.cumulative_header_family(), G.suffix_all_items_family()):
+    fams = (G.error_class_family(T), G.hostile_count_family(T), G.cumulative_header_family(), G.suffix_all_items_family(),
+            G.builder_header_family())
+    if os.environ.get('C02_NO_R3_FAMILIES'):      # coverage baseline: the stream as it was before round 3
+        fams = (G.hostile_count_family(T), G.cumulative_header_family(), G.suffix_all_items_family())
+    for fam in fams:
         for k, (mode, d, tag) in enumerate(fam):
             cases.append((k % 2 if not tag.startswith('hostile-count') else 0, -1, d, tag))
             cov[tag] = cov.get(tag, 0) + 1
@@ -347,6 +351,11 @@ def run(ck):
         s = ''.join(rng.choice(alphabet[:16] if rng.random() < 0.6 else alphabet) for _ in range(rng.randint(1, 12))).lstrip(' ')
         if s and '\x00' not in s:
             strtods.append(s.encode())
+    if os.environ.get('VERIF_COVERAGE'):
+        import c02_cov
+        lines_, br_, fn_ = c02_cov.run_coverage(ck, cases, strtods)
+        c02_cov.write_report(ck, c02_cov.summarize(lines_, br_, fn_), os.environ.get('VERIF_COVERAGE_TAG', 'current'))
+        return
     work = os.path.join(BUILD, 'c02')
     shutil.rmtree(work, ignore_errors=True)
     os.makedirs(work)
@@ -356,7 +365,8 @@ def run(ck):
             f.write('case %d %d %d %s\n' % (i, fl, o, d.hex() or '-'))
         for s in strtods:
             f.write('strtod %s\n' % s.hex())
-    n_ops = len(cases) + len(strtods)
+        f.write('fileerr 0 nonexistent\nfileerr 1 directory\n')
+    n_ops = len(cases) + len(strtods) + 2
     t0 = time.time()
     impl, aborts = run_harness(ck, exe, ops_path, n_ops, work)
     truncated_at = aborts.pop('truncated-at', None)
@@ -369,6 +379,14 @@ def run(ck):
         p = subprocess.run([drv], stdin=fi, stdout=fo, stderr=subprocess.PIPE)
     model = open(mo).read().split('\n')
     ck.log('model driver: %.1fs' % (time.time() - t0))
+    # OS-level failures of the file path (outside the model): the real call must end in an exception
+    for j in (n_ops - 2, n_ops - 1):
+        l = impl.get(j, '')
+        f_ = l.split()
+        cov['fileerr_' + (f_[2].split(':')[0] if len(f_) > 2 else 'none')] = cov.get('fileerr_' + (f_[2].split(':')[0] if len(f_) > 2 else 'none'), 0) + 1
+        if len(f_) != 4 or not f_[2].startswith('exc:') or not f_[3].startswith('exc:'):
+            ck.add_violation('file-os-error', 'ReadNLFile on a missing file / a directory did not end in an exception: %r' % l,
+                             {'op': 'fileerr (nonexistent | directory)', 'line': l})
     if p.returncode != 0 or len(model) < n_ops:
         ck.add_violation('model-driver', 'lean driver failed: rc=%s lines=%d/%d %s' % (p.returncode, len(model), n_ops, p.stderr[-300:]),
                          {'cmd': drv}, found_input=False)
@@ -489,6 +507,63 @@ def run(ck):
             ck.add_violation('swapped-vs-native', 'the byte-swapped and the native encoding of the same problem give different notifications',
                              replay_obj(a, {'native': la[:1200], 'swapped': lb[:1200], 'swapped_case_line': 'case %d %d %d %s' % (b, cases[b][0], cases[b][1], cases[b][2].hex())}))
     ck.cov['byte_order_twins_compared'] = n_twins
+    # which arms of the Lean model the stream exercised: every error class is one `fail` site class, every event kind
+    # one emission arm, plus reader kind x flags x outcome kind
+    ALL_ERR = 'format manyopts newline uint int toobig ioverflow arith double colon eofstr name eof oob fewargs ref opcode const expr numop slopes logical logop count complvar bound expectn coloff manyinit functype sufkind dupb nob segment unsarith'.split()
+    ALL_EV = 'H obj acon lcon bce ece compl linobj lincon term vb cb iv idv cols col func isuf dsuf sv sd num var cref un bin if bpl sl bp epl bcall ecall bva eva bsum esum bcnt ecnt bno eno bsno esno arg bool not blog rel lcnt impl bil eil bpw epw str symif end'.split()
+    m_err, m_ev, m_kind = set(), set(), set()
+    arms = {}
+    def arm(k):
+        arms[k] = arms.get(k, 0) + 1
+    TOPLEVEL = {'H', 'acon', 'lcon', 'obj', 'ece', 'compl', 'term', 'vb', 'cb', 'iv', 'idv', 'col', 'cols', 'func', 'sv', 'sd'}
+    for i in range(len(cases)):
+        head, _, evs = model[i].partition(' | ')
+        out = head.split(' ', 1)[1] if ' ' in head else '?'
+        f_ = out.split(':')
+        if f_[0] in ('rerr', 'berr'):
+            m_err.add(f_[1])
+        toks = evs.split()
+        for t in toks:
+            m_ev.add(t.partition(':')[0])
+        if toks and toks[0].startswith('H:'):
+            hf = toks[0][2:].split(',')
+            arm('hdr:num_eqns ' + ('absent' if hf[18] == '-1' else 'present'))
+            arm('hdr:num_nl_vars_in_both ' + ('absent' if hf[30] == '-1' else 'present'))
+            arm('hdr:compl_dbl_ineqs ' + ('-1' if hf[24] == '-1' else 'read/default'))
+            arm('hdr:vbtol ' + ('set' if hf[11] not in ('0000000000000000',) else 'unset'))
+            arm('hdr:options ' + ('default-1,1,0' if hf[2:5] == ['1', '1', '0'] else 'other'))
+            arm('hdr:num_ampl_options=' + hf[1])
+            arm('hdr:arith_kind=' + hf[12])
+            arm('hdr:flags=' + hf[13])
+            for a_, b_ in zip(toks, toks[1:]):
+                if b_.partition(':')[0] in ('acon', 'obj') and a_.partition(':')[0] in TOPLEVEL:
+                    arm('ignore_zero: constraint/objective body is the constant 0 (no OnNumber)')
+                    break
+            if cases[i][1] >= 0 and not any(t.startswith('obj:') for t in toks) and any(t.startswith('num:') or t.startswith('var:') for t in toks):
+                arm('NeedObj=false: expression delivered, OnObj skipped')
+            if cases[i][0] == 1 and len(toks) > 1 and toks[1].startswith('vb:'):
+                arm('READ_BOUNDS_FIRST: bounds delivered right after the header')
+            for t in toks:
+                if t.startswith('vb:') or t.startswith('cb:'):
+                    lb_, ub_ = t.split(',')[1:3]
+                    arm('bound-type ' + ('free' if (lb_, ub_) == ('fff0000000000000', '7ff0000000000000') else 'upper' if lb_ == 'fff0000000000000'
+                                         else 'lower' if ub_ == '7ff0000000000000' else 'fixed' if lb_ == ub_ else 'range'))
+            m_kind.add(('text' if hf[0] == '0' else 'bin-native' if hf[12] == '1' else 'bin-swapped' if hf[12] == '2' else 'bin-other',
+                        cases[i][0], f_[0], 'filter' if cases[i][1] >= 0 else 'all'))
+    ck.cov['model_arms'] = {'error_classes_hit': '%d of %d' % (len(m_err & set(ALL_ERR)), len(ALL_ERR)),
+                            'error_classes_missing': sorted(set(ALL_ERR) - m_err),
+                            'event_kinds_hit': '%d of %d' % (len(m_ev & set(ALL_EV)), len(ALL_EV)),
+                            'event_kinds_missing': sorted(set(ALL_EV) - m_ev),
+                            'reader_kind_x_flags_x_outcome_x_filter': len(m_kind), 'arms': dict(sorted(arms.items()))}
+    ck.log('model arms: errors %s (missing %s), events %s (missing %s), kind x flags x outcome x filter combos %d' % (
+        ck.cov['model_arms']['error_classes_hit'], ck.cov['model_arms']['error_classes_missing'],
+        ck.cov['model_arms']['event_kinds_hit'], ck.cov['model_arms']['event_kinds_missing'], len(m_kind)))
+    cj = os.path.join(VERIF, 'design_notes', 'coverage', 'C02.json')
+    if os.path.exists(cj):
+        cjs = json.load(open(cj))
+        ck.cov['anchor_line_cov'] = cjs.get('anchor_line_cov')
+        ck.cov['anchor_branch_cov'] = cjs.get('anchor_branch_cov')
+        ck.cov['anchor_cov_note'] = 'mechanism code of the anchored files, measured by the last VERIF_COVERAGE=1 run (design_notes/coverage/C02.md)'
     # strtod stream
     bad_strtod = 0
     for k, s in enumerate(strtods):
